@@ -255,7 +255,10 @@ func VC06ScenarioNested() {
 // An NMI is accepted at that boundary, always.  A maskable request is accepted
 // iff IFF1 is set there — at that boundary or, if the instruction was the
 // enabling EI, possibly one instruction later; otherwise it stays pending.
-func VC06After(tbl, op, kind int) {
+// pre = 1: a maskable request was already pending, refused (IFF1 clear), while
+// that instruction ran; at the boundary the device replaces it by the new one
+// (an NMI overrides a waiting maskable request).
+func VC06After(tbl, op, kind, pre int) {
 	var s States
 	vHavoc(&s, "s")
 	if kind == 1 {
@@ -265,7 +268,14 @@ func VC06After(tbl, op, kind int) {
 	vPlace(bus, s.PC, tbl, op)
 	cnt := &vCounter{}
 	cpu := &CPU{States: s, Memory: bus, IO: bus, RETNHandler: cnt, RETIHandler: cnt}
+	if pre == 1 {
+		vAssume(!s.IFF1)
+		cpu.Interrupt = IM1Interrupt()
+	}
 	cpu.Step()
+	if pre == 1 {
+		vAssert("refused-stays-pending", cpu.Interrupt != nil)
+	}
 	s1 := cpu.States
 	if kind == 1 {
 		vAssume(s1.IM == 1) // the instruction itself may have been IM 0 / IM 2
